@@ -117,6 +117,8 @@ def _memcpy(M, st, a):
     for off, v in cells.items():
         if isinstance(off, int) and s.off <= off < s.off + n:
             st.store(d.obj, d.off + off - s.off, v)
+        elif isinstance(off, tuple) and off[0] == "w" and s.off <= off[1] < s.off + n:
+            st.store(d.obj, ("w", d.off + off[1] - s.off), v)
     return st, None
 
 
@@ -130,6 +132,8 @@ def base_stubs():
     s["llvm.fabs.f64"] = _fabs
     s["fmin"] = _fmin
     s["fmax"] = _fmax
+    s["_Z3mindd"] = _fmin
+    s["_Z3maxdd"] = _fmax
     s["llvm.minnum.f64"] = _fmin
     s["llvm.maxnum.f64"] = _fmax
     s["printf"] = _printf_like(0)
